@@ -681,8 +681,10 @@ def explore_ops(wd, drv, configs, rng, tier, seed, stats, viol, samples, distinc
     combos = all_combos()
     mt = model_types(drv, combos)
     nrand = 1 if tier == "quick" else 8
-    dmain = {key(c): directed_points(c["op"], c["R"], c["T"], "main") for c in combos}
-    dextra = {key(c): directed_points(c["op"], c["R"], c["T"], "extra") for c in combos}
+    # main configurations: full grid (the smaller grid for the unitless-unit twins of the same operators); extra
+    # configurations (the other language standards): the smaller grid, for the same-type operators and the T == R scalar ones
+    dmain = {key(c): directed_points(c["op"], c["R"], c["T"], "main" if not c["ul"] or c["op"] == "divl" else "extra") for c in combos}
+    dextra = {key(c): (directed_points(c["op"], c["R"], c["T"], "extra") if (c["T"] == c["R"] and not c["ul"]) else []) for c in combos}
     rnd = {key(c): random_points(rng, c["op"], c["R"], c["T"], nrand) for c in combos}
     pts = {k: list(dict.fromkeys(dmain[k] + dextra[k] + rnd[k])) for k in dmain}     # everything the model is asked about
     pts_for = {"main": {k: list(dict.fromkeys(dmain[k] + rnd[k])) for k in dmain}, "extra": dextra}
@@ -748,7 +750,7 @@ def explore_ops(wd, drv, configs, rng, tier, seed, stats, viol, samples, distinc
         types = {}
         sampled_ops = set() if not any("request" in x and x["request"].startswith("P ") for x in samples) else set(FUNCTOR)
         for l, (kind, c, a, b), ans in zip(lines, meta, answers):
-            m = mt[key(c)]
+            m = mt.get(key(c), {})
             base = {"op": c["op"], "R": c["R"], "T": c["T"], "ul": c["ul"], "config": cfg}
             r = kv(ans)
             if ans.startswith("bad"):
